@@ -243,4 +243,117 @@ theorem run_check (root : Box) (hroot : Box.isEmpty root = false)
   simp only [List.singleton_append, List.foldlM_cons, hpush]
   simp only [bind, Except.bind, hfold, hd, hall, pure, Except.pure, if_true]
 
+/-! ### resumed searches: the stage certificate of C18 accepts every resumed run of the model -/
+
+theorem fold_pushes : ∀ (bs : List Box) (cs : Cover.St), cs.popped = none → (∀ b ∈ bs, Box.isEmpty b = false) →
+    (bs.map Ev.push).foldlM (Cover.step cert pv) cs = .ok { cs with openB := bs.reverse ++ cs.openB }
+  | [], cs, _, _ => by simp [pure, Except.pure]
+  | b :: bs, cs, hp, hne => by
+    have hb : Box.isEmpty b = false := hne b List.mem_cons_self
+    have h1 : Cover.step cert pv cs (Ev.push b) = .ok { cs with openB := b :: cs.openB } := by
+      simp [Cover.step, hb, hp]
+    simp only [List.map_cons, List.foldlM_cons, h1, bind, Except.bind]
+    have := fold_pushes bs { cs with openB := b :: cs.openB } hp
+      (fun x hx => hne x (List.mem_cons_of_mem _ hx))
+    rw [this]
+    simp
+
+theorem leadingPushes_append (bs : List Box) : ∀ (rest : List Ev),
+    (∀ b tl, rest ≠ Ev.push b :: tl) → Cover.leadingPushes (bs.map Ev.push ++ rest) = bs := by
+  induction bs with
+  | nil =>
+    intro rest h
+    cases rest with
+    | nil => rfl
+    | cons e tl =>
+      cases e with
+      | push b => exact absurd rfl (h b tl)
+      | top _ => rfl
+      | ctc _ _ => rfl
+      | pop _ => rfl
+      | flush => rfl
+  | cons b bs ih =>
+    intro rest h
+    simp only [List.map_cons, List.cons_append, Cover.leadingPushes, ih rest h]
+
+/-- the events emitted by the loop after its initial log never start with a push -/
+theorem run_log_shape : ∀ (fuel : Nat) (s : St), ∃ evs, (run P fuel s).log = s.log ++ evs ∧ ∀ b tl, evs ≠ Ev.push b :: tl
+  | 0, s => ⟨[], by simp [run], by intro b tl h; cases h⟩
+  | fuel + 1, s => by
+    unfold run
+    split
+    · exact ⟨[], by simp, by intro b tl h; cases h⟩
+    · rename_i s' hs
+      obtain ⟨b, _, rfl⟩ := step_some hs
+      obtain ⟨evs, hl, _⟩ := run_log_shape fuel (stepOn P s b)
+      have h3 : ∃ e2, (stepOn P s b).log = s.log ++ (Ev.top b :: e2) := by
+        unfold stepOn evs3
+        split
+        · exact ⟨_, rfl⟩
+        · split
+          · exact ⟨_, rfl⟩
+          · exact ⟨_, by simp only [List.cons_append, List.nil_append]; rfl⟩
+      obtain ⟨e2, he2⟩ := h3
+      refine ⟨Ev.top b :: e2 ++ evs, by rw [hl, he2]; simp, ?_⟩
+      intro b' tl h
+      simp at h
+
+/-- **The stage certificate of C18 (`Cover.stageOk`) accepts every resumed run of the model**: validated boxes carried over
+    unchanged, every other box of the previous paving re-queued, log accepted. -/
+theorem resume_stage (prev : List Item) (fuel : Nat)
+    (hne : ∀ b ∈ requeued prev, Box.isEmpty b = false)
+    (hsub : ∀ x, Box.subset (P.ctc x) x = true)
+    (hact : ∀ o, Box.isEmpty o = false → actOk o (P.act o) = true) :
+    Cover.stageOk cert prev (resumedItems prev (run P fuel (St.resume prev))) (run P fuel (St.resume prev)).log = true := by
+  set fin := run P fuel (St.resume prev) with hfin
+  -- the replay after the leading pushes
+  have hpush : ((requeued prev).map Ev.push).foldlM (Cover.step cert (Cover.pavingOf (resumedItems prev fin))) Cover.St.init
+      = .ok ⟨0, (requeued prev).reverse, none, none, none, []⟩ := by
+    rw [fold_pushes _ _ rfl hne]
+    simp [Cover.St.init]
+  have hR0 : Rel cert (Cover.pavingOf (resumedItems prev fin)) (St.resume prev) ⟨0, (requeued prev).reverse, none, none, none, []⟩ :=
+    ⟨⟨0, (requeued prev).reverse, none, none, none, []⟩, by simp [discharge], rfl, rfl, rfl⟩
+  have hboxes : ∀ t, t ∈ fin.stored ∨ t ∈ fin.buffer → t ∈ (Cover.pavingOf (resumedItems prev fin)).boxes := by
+    intro t ht
+    simp only [Cover.pavingOf, resumedItems, List.map_append, List.map_map, List.mem_append, List.mem_map,
+      Function.comp]
+    rcases ht with h | h
+    · exact Or.inl (Or.inr ⟨t, h, rfl⟩)
+    · exact Or.inr ⟨t, h, rfl⟩
+  obtain ⟨evs, cs2, hlog, hfold, cs3, hd, hopen, _, _⟩ :=
+    run_sim (cert := cert) (pv := Cover.pavingOf (resumedItems prev fin)) hsub hact fuel (St.resume prev) _
+      (fun t ht => hboxes t (Or.inl ht)) hR0
+  obtain ⟨evs', hlog', hshape⟩ := run_log_shape (P := P) fuel (St.resume prev)
+  have hev : evs' = evs := List.append_cancel_left (hlog'.symm.trans hlog)
+  subst hev
+  have hl0 : (St.resume prev).log = (requeued prev).map Ev.push := rfl
+  unfold Cover.stageOk
+  rw [Bool.and_eq_true]
+  refine ⟨?_, ?_⟩
+  · -- the carry-over rule
+    unfold Cover.resumeOk
+    rw [List.all_eq_true]
+    intro it hit
+    by_cases hv : it.validated = true
+    · simp only [hv, if_true, decide_eq_true_eq]
+      simp only [resumedItems, List.mem_append, List.mem_filter]
+      exact Or.inl (Or.inl ⟨hit, hv⟩)
+    · simp only [hv, Bool.false_eq_true, if_false, Bool.or_eq_true, decide_eq_true_eq]
+      left
+      rw [← hfin] at hlog
+      rw [hlog, hl0, leadingPushes_append _ _ hshape]
+      simp only [requeued, List.mem_map, List.mem_filter]
+      exact ⟨it, ⟨hit, by simpa using hv⟩, rfl⟩
+  · -- the log is accepted
+    have hall : cs3.openB.all (storedOk (Cover.pavingOf (resumedItems prev fin))) = true := by
+      rw [hopen, List.all_eq_true]
+      intro b hb
+      unfold storedOk
+      simp only [Bool.or_eq_true, List.any_eq_true]
+      exact Or.inl ⟨b, hboxes b (Or.inr hb), Box.subset_refl b⟩
+    unfold Cover.check
+    rw [← hfin] at hlog
+    rw [hlog, hl0, List.foldlM_append, hpush]
+    simp only [bind, Except.bind, hfold, hd, hall, pure, Except.pure, if_true]
+
 end Ibex.SearchLoop
